@@ -85,7 +85,7 @@ def main():
             sh("git checkout -- . && git clean -fdq", cwd=wt)
         verdict["checks"] = ran
         verdict["caught_by"] = [r["cmd"].split()[1] for r in ran if r["rc"] == 1]
-        dst = os.path.join(VERIF, "seeded", "%s-%s" % (prop, name))
+        dst = os.path.join(VERIF, "seeded", os.environ.get("SEED_DST") or "%s-%s" % (prop, name))
         shutil.rmtree(dst, ignore_errors=True)
         os.makedirs(dst)
         for f in ("patch.diff", "demo_test.go"):
